@@ -45,6 +45,8 @@ const (
 	c41CacheSet  c41Op = "cache-set"   // SegmentCache.SetSegment on the partition's first segment key
 	c41CacheGet  c41Op = "cache-get"   // SegmentCache.GetSegment + read of the returned bytes
 	c41ReadSmall c41Op = "fetch-small" // handleFetch offset 1 with a small maxBytes (range-read path)
+	c41ProduceP1 c41Op = "produce-p1"  // handleProduce acks=-1 to the topic's OTHER partition (its first touch on this broker)
+	c41FetchP1   c41Op = "fetch-p1"    // handleFetch on the other partition (first touch: log initialisation)
 	c41CacheSetB c41Op = "cache-set-b" // SetSegment of another key (evicts under cache pressure)
 	c41CacheSetC c41Op = "cache-set-c" // SetSegment of a third key
 )
@@ -62,7 +64,7 @@ func c41Setup(points bool, buffered bool, tiny ...bool) *c41World {
 	w := &c41World{bucket: fakes3.NewBucket()}
 	s3 := fakes3.New(w.bucket, "b1")
 	s3.NoPoints = !points
-	store := metadata.NewInMemoryStore(vMeta(map[string]int{"t": 1}))
+	store := metadata.NewInMemoryStore(vMeta(map[string]int{"t": 2})) // partition 1 stays cold: its first touch registers a sibling log
 	w.h = vNewHandler(store, s3)
 	w.h.logConfig.Buffer.FlushInterval = 0
 	w.h.logConfig.ReadAheadSegments = 1
@@ -133,6 +135,11 @@ func (w *c41World) run(op c41Op, tag string) {
 		if b, ok := w.h.cache.GetSegment("default/t", 0, 0); ok {
 			c41Touch(b)
 		}
+	case c41ProduceP1:
+		_, _ = vProduceOne(w.h, "t", 1, -1, enum.SimpleBatch(tag, 1, 8))
+	case c41FetchP1:
+		fr, _ := vFetchOne(w.h, "t", 1, 0, 1<<20)
+		c41Touch(fr.Records)
 	case c41CacheSetB:
 		if w.seg0 != nil {
 			w.h.cache.SetSegment("default/t", 0, 1000, w.seg0)
@@ -300,6 +307,11 @@ func TestVerifC41(t *testing.T) {
 		}
 	}
 	scen = append(scen, []c41Op{c41Buffered, c41Produce0, c41FetchTail, c41FetchTail}, []c41Op{c41Buffered, c41Flush, c41FetchTail, c41FetchTail})
+	// sibling partition: requests on the warm partition against the first touch of the topic's other partition
+	for _, a := range []c41Op{c41FetchOld, c41FetchTail, c41Produce, c41ReadSmall, c41Flush} {
+		scen = append(scen, []c41Op{a, c41ProduceP1}, []c41Op{a, c41FetchP1})
+	}
+	scen = append(scen, []c41Op{c41ProduceP1, c41FetchP1}, []c41Op{c41FetchOld, c41FetchOld, c41ProduceP1})
 	// tiny-cache world: a reader of handed-out cache bytes against inserts that evict (and may recycle)
 	scen = append(scen,
 		[]c41Op{c41Tiny, c41FetchOld, c41CacheSetB},
